@@ -621,7 +621,7 @@ def native_build(udir, work, templates, driver, out, extra='', link=''):
 
 
 def run_fidelity(udir, work, templates, seed, tier, meta):
-    exe = native_build(udir, work, templates, os.path.join(udir, 'fidelity.cpp'), os.path.join(work, 'fidelity'), link=meta.get('native_link', ''))
+    exe = native_build(udir, work, meta.get('native_templates', templates[:1]), os.path.join(udir, 'fidelity.cpp'), os.path.join(work, 'fidelity'), link=meta.get('native_link', ''))
     n = meta.get('fidelity_samples', 20000) * (20 if tier == 'thorough' else 1)
     rc, so, se, dt = sh('%s fidelity %d %d' % (quote(exe), int(seed), n), timeout=900, cwd=work)
     if rc != 0:
@@ -639,7 +639,7 @@ def run_native_replay(udir, work, templates, rec, meta):
     try:
         exe = os.path.join(work, 'fidelity')
         if not os.path.exists(exe):
-            exe = native_build(udir, work, templates, drv, exe, link=meta.get('native_link', ''))
+            exe = native_build(udir, work, meta.get('native_templates', templates[:1]), drv, exe, link=meta.get('native_link', ''))
     except Infra as e:
         return dict(reproduced=False, reason='replay driver build failed: %s' % e)
     inp = os.path.join(work, 'replay_in.txt')
